@@ -70,7 +70,7 @@ func (in *vfGWInst) track(evFull string) {
 		delete(in.announced[f[1]], f[2])
 	case "disc", "inclose", "inreset", "inopen", "outreset", "outclose":
 		in.announced[f[1]] = map[string]bool{}
-	case "lpub":
+	case "lpub", "lpubbatch":
 		if in.lpubDone == nil {
 			in.lpubDone = map[string]bool{}
 		}
@@ -94,7 +94,7 @@ func (in *vfGWInst) Enabled() []string {
 			ok = g.conn[f[1]] && !in.announced[f[1]][f[2]] && g.fake(f[1]).inAlive()
 		case "unsub":
 			ok = g.conn[f[1]] && in.announced[f[1]][f[2]] && g.fake(f[1]).inAlive()
-		case "graft", "prune", "prunepx", "pub", "ihave", "iwant", "idw":
+		case "graft", "prune", "prunepx", "pub", "pubdup", "ihave", "iwant", "idw":
 			ok = g.conn[f[1]] && g.fake(f[1]).inAlive()
 		case "inclose", "inreset":
 			ok = g.conn[f[1]] && g.fake(f[1]).inAlive()
@@ -127,7 +127,7 @@ func (in *vfGWInst) Enabled() []string {
 			ok = fmt.Sprint(cur) != f[2]
 		case "bl":
 			ok = !in.last.Blacklst[f[1]]
-		case "lpub":
+		case "lpub", "lpubbatch":
 			ok = !in.lpubDone[f[2]] // labels of local publications are unique
 		case "blimpl":
 			ok = !in.last.Blacklst[f[1]]
